@@ -5,6 +5,9 @@ A kernel is described by a dict:
   impl_block(case, ga, gb) -> ndarray, impl_int(case, gbasis, T) -> ndarray,
   post(impl_array) -> real ndarray to compare with the model (e.g. -imag for momentum type),
   tol(case, model_nested, level) -> (tol_abs or None, tol_fn or None), extra_check(case, impl, model) -> detail|None
+  hp_block(case, ha, hb) -> object ndarray (optional: the block routine replayed on HP shells, cases with "hp": 1;
+  hp_seg(case) -> the two axes of the block that index the segments (default (0, 2)); hp_post / hp_floor: see
+  hpnum.compare_hp)
 
 History streams (hidden state / "the value depends only on the arguments"): basis-level shells are built WITH the atom
 index (icenter); a basis-level case may carry case["hist"] = further geometries (per-shell centres): the same shells are
@@ -136,6 +139,14 @@ class _Memo:
 def make_eval(kernel):
     def eval_case(model, case):
         kind = case["kind"]
+        if kind == "block" and case.get("hp"):
+            # high-precision replay of the block routine on object arrays (harness/hpnum.py): kernel["hp_block"]
+            import hpnum
+            sa, sb = XShell.from_json(case["a"]), XShell.from_json(case["b"])
+            return hpnum.eval_pair(model, case, kernel["block_cmd"](case, sa, sb),
+                                   lambda ha, hb: kernel["hp_block"](case, ha, hb), kernel["name"],
+                                   seg_axes=kernel["hp_seg"](case) if "hp_seg" in kernel else (0, 2),
+                                   post=kernel.get("hp_post"), floor_rel=kernel.get("hp_floor", 1e-3))
         if kind == "block":
             sa, sb = XShell.from_json(case["a"]), XShell.from_json(case["b"])
             res = model.call(kernel["block_cmd"](case, sa, sb))
@@ -273,6 +284,23 @@ def far_tight(rng, sa, sb):
     sa.coord = [Fraction(x) for x in t]
     sb.coord = [Fraction(x + rng.uniform(-w, w)) for x in t]
     return sa, sb
+
+
+def hp_cases(tier, seed, salt, lmax_quick=2, lmax_thorough=4, n_quick=6, n_thorough=60, extra=None):
+    """block cases of the high-precision replay stream ("hp": 1): small l and K, M <= 2 (object arithmetic is ~1000 x
+    slower than double); see hpnum.gen_pairs for the geometries"""
+    import hpnum
+    if os.environ.get("VERIF_NO_HP"):        # timing comparisons only
+        return []
+    rng = random.Random(1000003 * seed + 7919 * salt + 13)
+    quick = tier == "quick"
+    out = []
+    for sa, sb in hpnum.gen_pairs(rng, n_quick if quick else n_thorough, lmax_quick if quick else lmax_thorough):
+        c = {"kind": "block", "hp": 1, "a": sa.to_json(), "b": sb.to_json()}
+        if extra:
+            c.update(extra(rng, "block", [sa, sb]))
+        out.append(c)
+    return out
 
 
 def gen_cases(tier, seed, salt, lmax_block=5, lmax_basis=3, extra=None, nb_quick=40, nb_thorough=300,
